@@ -126,7 +126,7 @@ def gen_specs(rng: random.Random, n: int) -> Tuple[List[Dict[str, Any]], Dict[st
         stats["generated"] += 1
         r0 = rng.random()
         spec = (daggen.gen_two_roots_inner(rng) if r0 < 0.15 else daggen.gen_typed_mix(rng) if r0 < 0.35
-                else daggen.gen_single_root(rng))
+                else daggen.gen_ladder(rng) if r0 < 0.45 else daggen.gen_single_root(rng))
         uni = Universe(spec, GateListener())
         try:
             uni.prepare()
